@@ -129,6 +129,7 @@ Del(c) == [kind |-> "delete", ph |-> <<>>, nslots |-> 1, set |-> "-", wh |-> c]
 Sel(kind, c, n) == [kind |-> kind, ph |-> <<>>, nslots |-> n, set |-> "-", wh |-> c]
 
 BaseSeq(ph) == [j \in 1..Len(ph) |-> Base[ph[j]]]
+Perm == <<"u", "id", "d", "k", "s", "b", "f">>
 \* vary one slot of an INSERT over its column's values, the others keep Base's values (still bound as parameters)
 VaryOne(ph) == UNION {{[BaseSeq(ph) EXCEPT ![j] = v] : v \in StoreVals(ph[j])} : j \in 1..Len(ph)}
 InsertCases ==
@@ -140,6 +141,8 @@ InsertCases ==
         \cup UNION {{<<Ins(one(c)), <<v>> >> : v \in StoreVals(c)} : c \in ColSet}
         \cup {<<Ins(three), <<i, u, s>> >> : i \in {IntV(2), IntV(4)}, u \in {IntV(20), IntV(30), Null}, s \in {TextV("p_sqlish"), TextV("p_its"), Null}}
         \cup {<<Ins(<<"id", "u">>), <<IntV(4), IntV(4)>> >>, <<Ins(<<"u", "k">>), <<IntV(7), IntV(7)>> >>}    \* equal values: the "rep" form
+        \* the column list in another order than the table's: INSERT INTO t (u, id, d, ..) VALUES (?, ?, ?, ..)
+        \cup {<<Ins(Perm), BaseSeq(Perm)>>, <<Ins(Perm), [BaseSeq(Perm) EXCEPT ![1] = IntV(20)]>>, <<Ins(Perm), [BaseSeq(Perm) EXCEPT ![2] = IntV(30)]>>}
 
 SetCols == {"u", "k", "s", "f", "d", "b"}
 WhCols == {"id", "u", "k", "s"}
